@@ -211,6 +211,13 @@ Loop:
 			case codec.MovedOrAsk:
 				addr, slot := r.parseMovedOrAsk()
 				el.eventHandler.OnMoved(addr, slot, s, r)
+				if r.Error.NotNil() && r.Peer != nil && !r.Peer.Done {
+					// the redirect cannot be followed: answer the request with the error
+					failMsg(r.Peer, r.Error)
+					if c, ok := r.Owner.(*conn); ok {
+						el.flushDone(c)
+					}
+				}
 				continue
 
 			// The current message has been processed, continue to process the next message
